@@ -14,5 +14,17 @@ Spec == Init /\ [][Next]_pat
 Wt == [ij \in pat |-> ij[1] * 2 - ij[2]]
 OraclesAgree == StructSingular(Wt, N) <=> HallViolated(Wt, N)
 \* weak duality: no matching beats the bound given by any feasible (u, v) found from an optimal matching with u = -w, v = 0 shape
+\* the recursive maximum agrees with the enumerated one, and reports NEG exactly for structurally singular patterns
+RecAgrees == /\ (StructSingular(Wt, N) <=> MaxValueRec(Wt, N) = NEG)
+             /\ (~StructSingular(Wt, N) => MaxValueRec(Wt, N) = MaxValue(Wt, N))
+\* a dual-feasible scaling that is tight on a matching certifies that the matching is optimal (column duals from a small
+\* range, row duals determined by tightness)
+DualCertifies == \A p \in AllMatchings(Wt, N) : \A v \in [Ix0(N) -> -3 .. 3] :
+                   LET u == [i \in Ix0(N) |-> 0 - Wt[<<i, p[i]>>] - v[p[i]]]
+                   IN DualFeasible(u, v, p, Wt, N) => Value(p, Wt, N) = MaxValue(Wt, N)
+\* ... and for every nonsingular pattern some such certificate exists (the clause is satisfiable: not vacuous)
+CertificateExists == ~StructSingular(Wt, N) =>
+                   \E p \in AllMatchings(Wt, N) : \E v \in [Ix0(N) -> -6 .. 6] :
+                      DualFeasible([i \in Ix0(N) |-> 0 - Wt[<<i, p[i]>>] - v[p[i]]], v, p, Wt, N)
 BoundHolds == ~StructSingular(Wt, N) => \A p \in AllMatchings(Wt, N) : Value(p, Wt, N) <= MaxValue(Wt, N)
 =============================================================================
